@@ -194,3 +194,93 @@ def config_probe(text, as_file=None, group='g1'):
     finally:
         for h in list(root.handlers):
             root.removeHandler(h)
+
+
+def groups_of(config, cwd=None):
+    """The statements of every mapping group, computed with the library internals (no file writing):
+    {'all_groups': [...], 'asserted': {group: sorted lines}}"""
+    old = os.getcwd()
+    try:
+        if cwd:
+            os.chdir(cwd)
+        try:
+            from morph_kgc.args_parser import load_config_from_argument
+            from morph_kgc.mapping.mapping_parser import retrieve_mappings
+            from morph_kgc.materializer import _materialize_mapping_group_to_set
+            from morph_kgc.constants import RML_TRIPLES_MAP_CLASS
+            cfg = load_config_from_argument(config)
+            rml_df, fnml_df = retrieve_mappings(cfg)
+            asserted = rml_df.loc[rml_df['triples_map_type'] == RML_TRIPLES_MAP_CLASS]
+            out = {}
+            for name, g in asserted.groupby(by='mapping_partition'):
+                out[str(name)] = sorted(_materialize_mapping_group_to_set(g, rml_df, fnml_df, cfg))
+            return {'all_groups': sorted(set(str(x) for x in rml_df['mapping_partition'])), 'asserted': out,
+                    'paths': {g: cfg.get_output_file_path(g) for g in set(str(x) for x in rml_df['mapping_partition'])},
+                    'single': (None if cfg.get_output_dir() else cfg.get_output_file_path()), 'dirmode': bool(cfg.get_output_dir())}
+        except Exception as e:
+            return _bucket(e)
+    finally:
+        os.chdir(old)
+
+
+WRAPPER = r'''
+import os, sys, time, runpy
+import morph_kgc.materializer as M
+_orig = M.triples_to_file
+_spec = dict(kv.split('=') for kv in os.environ.get('VERIF_DELAYS', '').split(',') if '=' in kv)
+def _slow(triples, config, mapping_group=None):
+    d = _spec.get(str(mapping_group), _spec.get('*'))
+    if d:
+        time.sleep(float(d))
+    return _orig(triples, config, mapping_group)
+M.triples_to_file = _slow
+sys.argv = ['morph_kgc', sys.argv[1]]
+runpy.run_module('morph_kgc', run_name='__main__')
+'''
+
+
+def cli_run_logged(config, cwd, outputs, shim, delays=None, timeout=300):
+    """CLI run with the write(2) log shim preloaded and optional per-group delays before a group is written.
+    Returns rc, log, files, and the logged writes [(pid, fd, requested, written, lastbyte, path)]."""
+    import subprocess
+    with open(os.path.join(cwd, 'config.ini'), 'w', encoding='utf-8') as f:
+        f.write(config)
+    with open(os.path.join(cwd, 'wrapper.py'), 'w') as f:
+        f.write(WRAPPER)
+    wlog = os.path.join(cwd, 'wlog.txt')
+    if os.path.exists(wlog):
+        os.remove(wlog)
+    env = dict(os.environ, LD_PRELOAD=shim, WLOG_PATH=wlog, VERIF_DELAYS=','.join('%s=%s' % kv for kv in (delays or {}).items()))
+    p = subprocess.run([sys.executable, 'wrapper.py', 'config.ini'], cwd=cwd, capture_output=True, text=True, timeout=timeout, env=env)
+    writes = []
+    if os.path.exists(wlog):
+        for l in open(wlog, encoding='utf-8', errors='replace'):
+            parts = l.rstrip('\n').split(' ', 5)
+            if len(parts) == 6:
+                writes.append([int(parts[0]), int(parts[1]), int(parts[2]), int(parts[3]), int(parts[4]), parts[5]])
+    return {'rc': p.returncode, 'log': (p.stdout + p.stderr)[-3000:], 'files': snapshot(cwd, outputs), 'writes': writes}
+
+
+def cli_history(steps, cwd, pre=None):
+    """A sequence of CLI runs over one directory.  steps: [config text]; pre: {relative path: text} written first.
+    After every step: the expectation computed with the library internals and a snapshot of all *.nt / *.nq files."""
+    for rel, text in (pre or {}).items():
+        full = os.path.join(cwd, rel)
+        os.makedirs(os.path.dirname(full) or cwd, exist_ok=True)
+        with open(full, 'w', encoding='utf-8') as f:
+            f.write(text)
+    out = []
+    def snap():
+        s = {}
+        for dp, dn, fn in os.walk(cwd):
+            for f in fn:
+                if f.endswith('.nt') or f.endswith('.nq'):
+                    full = os.path.join(dp, f)
+                    s[os.path.relpath(full, cwd)] = open(full, encoding='utf-8', newline='').read()
+        return s
+    out.append({'snapshot': snap()})
+    for cfg in steps:
+        exp = groups_of(cfg, cwd)
+        r = cli_run(cfg, cwd, outputs=[])
+        out.append({'expect': exp, 'rc': r['rc'], 'log': r['log'][-600:], 'snapshot': snap()})
+    return out
